@@ -221,6 +221,15 @@ fn parse(text: &str, allow_substvar: bool) -> Parse {
 
                 if self.current() == Some(IDENT) {
                     self.bump();
+                    // The lexer splits a version with an epoch ("1:2.0") at the colon
+                    if self.current() == Some(COLON) {
+                        self.bump();
+                        if self.current() == Some(IDENT) {
+                            self.bump();
+                        } else {
+                            self.error("Expected version after epoch".to_string());
+                        }
+                    }
                 } else {
                     self.error("Expected version".to_string());
                 }
@@ -1303,16 +1312,23 @@ impl Relation {
         let vc = vc.as_ref()?;
         let constraint = vc.children().find(|n| n.kind() == CONSTRAINT);
 
-        let version = vc.children_with_tokens().find_map(|it| match it {
-            SyntaxElement::Token(token) if token.kind() == IDENT => Some(token),
-            _ => None,
-        });
+        // An epoch is kept as separate tokens ("1", ":", "2.0")
+        let version = vc
+            .children_with_tokens()
+            .filter_map(|it| match it {
+                SyntaxElement::Token(token) if token.kind() == IDENT || token.kind() == COLON => {
+                    Some(token.text().to_string())
+                }
+                _ => None,
+            })
+            .collect::<String>();
 
-        if let (Some(constraint), Some(version)) = (constraint, version) {
-            let vc: VersionConstraint = constraint.to_string().parse().unwrap();
-            return Some((vc, (version.text().to_string()).parse().unwrap()));
-        } else {
-            None
+        match constraint {
+            Some(constraint) if !version.is_empty() => {
+                let vc: VersionConstraint = constraint.to_string().parse().unwrap();
+                Some((vc, version.parse().unwrap()))
+            }
+            _ => None,
         }
     }
 
